@@ -52,9 +52,9 @@ class Explorer:
             self.stats['unknown_kept'] += 1
         return r != 'unsat'
 
-    def run(self, fn):
-        """generator of Path objects, one per feasible execution path of fn()"""
-        work = [[]]
+    def run(self, fn, root_prefix=None):
+        """generator of Path objects, one per feasible execution path of fn() (below root_prefix if given)"""
+        work = [list(root_prefix) if root_prefix else []]
         while work:
             if self.stats['paths'] >= self.max_paths:
                 self.stats['truncated'] = True
